@@ -131,3 +131,16 @@ mod tests {
         assert_eq!(res, vec![2, 4, 6, 5])
     }
 }
+
+#[cfg(feature = "verif-hooks")]
+impl SimpleCycle {
+    pub fn vh_from_parts(ptrs: Vec<usize>, start: usize, len: usize) -> Self {
+        Self { ptrs, start, len }
+    }
+    pub fn vh_ptrs(&self) -> &[usize] {
+        &self.ptrs
+    }
+    pub fn vh_start(&self) -> usize {
+        self.start
+    }
+}
